@@ -347,6 +347,13 @@ func (v *Env) eval(x Expr) *Val {
 			}
 			return &Val{typ: b.typ, c: []string{b.c[0], app("+", b.c[1], lo), app("-", hi, lo), app("-", b.c[3], lo)}}
 		}
+		if isString(b.typ) {
+			hi := app("slen", b.c[0])
+			if x.Hi != nil {
+				hi = v.eval(x.Hi).c[0]
+			}
+			return &Val{typ: b.typ, c: []string{e.substr(b.c[0], lo, hi)}}
+		}
 		panic("contract: slicing of unsupported type")
 	case *ECall:
 		// a pure callback or a functional module function applied in a contract
@@ -371,6 +378,14 @@ func (v *Env) eval(x Expr) *Val {
 		case "TrimPrefix":
 			a, b := v.eval(x.Args[0]), v.eval(x.Args[1])
 			return v.e.ufTerm("strings."+x.Fn, []*Val{a, b}, types.Typ[types.String])
+		case "HasDotSegment":
+			return v.e.ufTerm("spec.HasDotSegment", []*Val{v.eval(x.Args[0])}, tBool)
+		case "Index":
+			a, b := v.eval(x.Args[0]), v.eval(x.Args[1])
+			return v.e.ufTerm("strings.Index", []*Val{a, b}, tInt)
+		case "TrimSuffix":
+			a, b := v.eval(x.Args[0]), v.eval(x.Args[1])
+			return v.e.ufTerm("strings.TrimSuffix", []*Val{a, b}, types.Typ[types.String])
 		case "HasSuffix", "HasPrefix", "Contains":
 			a, b := v.eval(x.Args[0]), v.eval(x.Args[1])
 			return v.e.ufTerm("strings."+x.Fn, []*Val{a, b}, tBool)
@@ -408,6 +423,9 @@ func (v *Env) eval(x Expr) *Val {
 					// resultof("site#n", i): the i-th result of a multi-valued call
 					idx, ok := x.Args[1].(*ENum)
 					tt, isT := r.typ.(*types.Tuple)
+					if ok && !isT && idx.V == 0 {
+						return r
+					}
 					if !ok || !isT || int(idx.V) >= tt.Len() {
 						panic("contract: resultof index")
 					}
@@ -415,6 +433,9 @@ func (v *Env) eval(x Expr) *Val {
 					return &Val{typ: tt.At(int(idx.V)).Type(), c: r.c[lo:hi]}
 				}
 				return r
+			}
+			if v.at != nil {
+				panic(unreachedSite(ts.S))
 			}
 			panic("contract: no call site " + ts.S + " before this point")
 		case "keylt":
